@@ -583,10 +583,34 @@ def _flag_disjunction(t):
 
 
 def handler_roles_quiet(prog):
-    """roles of the handler's parameters without recording obligations (used by other properties)"""
-    from ..report import Checker
-    tmp = Checker("tmp", "quick", prog)
-    h, roles = handler_roles(tmp, "tmp")
+    """roles of the handler's parameters (value / minimum / maximum) from its range tests alone, independent of how the
+    flag stores are guarded (so that a defect in the flag protocol is reported once, by C04, not as an analysis error elsewhere)"""
+    h = A.ovf_handler(prog)
+    params = [p for p in h.params if p != "self"]
+    triples = []
+    for n in ast.walk(h.node):
+        if isinstance(n, (ast.If, ast.IfExp, ast.While)):
+            ag = any_guard(n.test)
+            if ag and ag[0] in ("any", "all"):
+                lo, hi = dotted(peel(ag[1])[0]), dotted(peel(ag[3])[0])
+                if lo in params and hi in params and lo != hi:
+                    triples.append((lo, hi))
+    names = [x for t in triples for x in t]
+    val = None
+    for p_ in params:
+        if triples and all(p_ in t for t in triples):
+            val = p_
+    roles = {}
+    if val is not None:
+        roles["val"] = val
+        for lo, hi in triples:
+            if hi == val:
+                roles.setdefault("max", lo)
+            if lo == val:
+                roles.setdefault("min", hi)
     if not all(k in roles for k in ("val", "min", "max")):
-        raise AnalysisError("overflow handler parameter roles cannot be determined (its range tests are not in the expected form)")
+        if len(params) == 3:
+            roles = {"val": params[0], "min": params[1], "max": params[2]}    # positional convention (value, minimum, maximum)
+        else:
+            raise AnalysisError("overflow handler parameter roles cannot be determined")
     return roles
